@@ -151,9 +151,10 @@ class Probe(object):
 
     registry = {}
 
-    def __init__(self, key, ret=True, run_always=None):
+    def __init__(self, key, ret=True, run_always=None, tag=None):
         self.key = key
         self.ret = ret
+        self.tag = tag
         if run_always is not None:
             self.run_always = run_always
 
@@ -324,7 +325,7 @@ def mk_algo(bt, a, spec, frames):
     if name == "Const":
         return Const(p["v"])
     if name == "Probe":
-        return Probe(p["key"], p.get("ret", True), p.get("run_always"))
+        return Probe(p["key"], p.get("ret", True), p.get("run_always"), p.get("tag"))
     raise ValueError("unknown algo %r" % (name,))
 
 
